@@ -147,6 +147,8 @@ def doc_case():
             "explicit": st.integers(0, 2),
             "lib": st.sampled_from(["lib", None, "p/q"]),
             "iv": st.booleans(),
+            # the first dependency serialised once more, with another (or the same) indent argument
+            "twin_indent": st.sampled_from(["-", "-", "-", None, 0, 2, 4]),
         }
     )
 
@@ -173,7 +175,11 @@ def expected_markup(recipes, lib, iv):
 def body_extract(case, note):
     import htmltools as h
 
-    deps = [(build_dep(r), ind, r) for r, ind in case["deps"]]
+    cdeps = list(case["deps"])
+    twin = case.get("twin_indent", "-")
+    if twin != "-" and cdeps:
+        cdeps.append([cdeps[0][0], twin])
+    deps = [(build_dep(r), ind, r) for r, ind in cdeps]
     sers = [d.serialize_to_script_json(ind).get_html_string() for d, ind, _ in deps]
     # alternate text and serialisations, merging adjacent text pieces
     parts = []
@@ -195,7 +201,7 @@ def body_extract(case, note):
             seen_text.add(sers[v])
             order.append(v)
     n_explicit = min(case["explicit"], len(deps))
-    explicit = [build_dep(case["deps"][i][0]) for i in range(n_explicit)]
+    explicit = [build_dep(cdeps[i][0]) for i in range(n_explicit)]
     pattern = case["pattern"]
     td = h.HTMLTextDocument(doc, deps=list(explicit) if n_explicit else None, deps_replace_pattern=pattern)
     # a recovered dependency carries its head as one HTML() string with identical markup
@@ -203,7 +209,7 @@ def body_extract(case, note):
         d, _, r = deps[i]
         return dict(r, head=None if d.head is None else {"html": d.head.get_html_string()})
 
-    want_recipes = [case["deps"][i][0] for i in range(n_explicit)] + [recovered(i) for i in order]
+    want_recipes = [cdeps[i][0] for i in range(n_explicit)] + [recovered(i) for i in order]
     want_fields = [fields(build_dep(r)) for r in want_recipes]
     r = td.render(lib_prefix=case["lib"], include_version=case["iv"])
     got_fields = [fields(d) for d in r["dependencies"]]
@@ -215,7 +221,8 @@ def body_extract(case, note):
     r2 = td.render(lib_prefix=case["lib"], include_version=case["iv"])
     check(r2["html"] == r["html"] and [fields(d) for d in r2["dependencies"]] == got_fields, "render() twice differs")
     dup = len([1 for k, v in parts if k == "d"]) > len(order)
-    note(len(order) >= 2 and dup, "placeholder-present" if i >= 0 else "placeholder-absent", "placeholder-multiple" if text_only.count(pattern) > 1 else "", "explicit-deps" if n_explicit else "", "dup-serialisation" if dup else "", "no-deps" if not want_recipes else "")
+    note(len(order) >= 2 and dup, "placeholder-present" if i >= 0 else "placeholder-absent", "placeholder-multiple" if text_only.count(pattern) > 1 else "", "explicit-deps" if n_explicit else "", "dup-serialisation" if dup else "", "no-deps" if not want_recipes else "",
+         "same-dependency-serialised-with-two-indents" if len({sers[v] for v in order if cdeps[v][0] == cdeps[0][0]}) >= 2 else "")
 
 
 # ---------------------------------------------------------------- same markup as HTMLDocument's head
@@ -320,7 +327,7 @@ CLAUSES = [
         rule="see RULE",
         fuzz=60000,
     ),
-    Clause("extract", body_extract, strategy=doc_case, quick=300, thorough=6000, shards_quick=4, required=("placeholder-present", "placeholder-absent", "placeholder-multiple", "explicit-deps", "dup-serialisation", "no-deps"), rule="see RULE"),
+    Clause("extract", body_extract, strategy=doc_case, quick=300, thorough=6000, shards_quick=4, required=("placeholder-present", "placeholder-absent", "placeholder-multiple", "explicit-deps", "dup-serialisation", "no-deps", "same-dependency-serialised-with-two-indents"), rule="see RULE"),
     Clause(
         "headsame",
         body_headsame,
